@@ -55,7 +55,11 @@ func c18Funcs() map[string]jet.Func {
 			return none
 		},
 		"apiResolve": func(a jet.Arguments) reflect.Value { return a.Runtime().Resolve(str(a.Get(0))) },
-		"apiCtx":     func(a jet.Arguments) reflect.Value { return a.Runtime().Context() },
+		"apiLetList": func(a jet.Arguments) reflect.Value {
+			a.Runtime().Let(str(a.Get(0)), a.Get(1).Interface())
+			return reflect.ValueOf([]string{"r1", "r2"})
+		},
+		"apiCtx": func(a jet.Arguments) reflect.Value { return a.Runtime().Context() },
 		"apiYield": func(a jet.Arguments) reflect.Value {
 			var ctx interface{}
 			if a.NumOfArguments() > 1 {
@@ -94,6 +98,10 @@ func c18ModelSetup(in *mj.Interp) {
 		return v
 	}
 	in.Funcs["apiCtx"] = func(in *mj.Interp, a []interface{}) interface{} { return in.Ctx() }
+	in.Funcs["apiLetList"] = func(in *mj.Interp, a []interface{}) interface{} {
+		in.APILet(a[0].(string), a[1])
+		return []string{"r1", "r2"}
+	}
 	in.Funcs["apiYield"] = func(in *mj.Interp, a []interface{}) interface{} {
 		var ok bool
 		if len(a) > 1 {
@@ -205,7 +213,15 @@ func (g *c18Gen) stmts(depth int, vis []string) []*mj.Node {
 			out = append(out, mj.If(mj.Bool(true), g.stmts(depth+1, vis), nil))
 		case 11:
 			iv, vv := g.id("i"), g.id("e")
-			out = append(out, &mj.Node{K: "range", Names: []string{iv, vv}, Decl: true, E: mj.Call("slice", mj.Str("r1"), mj.Str("r2")), Body: g.stmts(depth+1, with(vis, iv, vv))})
+			subject := mj.Call("slice", mj.Str("r1"), mj.Str("r2"))
+			if g.n(0, 2, "letInRangeHeader") == 0 {
+				// the ranged-over expression calls a function that declares a variable: it is evaluated at the
+				// range statement, so the declaration belongs to the scope the statement stands in
+				g.labels["api-let-in-range-header"] = true
+				subject = mj.Call("apiLetList", mj.Str(name), g.val())
+				vis = with(vis, name)
+			}
+			out = append(out, &mj.Node{K: "range", Names: []string{iv, vv}, Decl: true, E: subject, Body: g.stmts(depth+1, with(vis, iv, vv))})
 		case 12:
 			out = append(out, &mj.Node{K: "range", E: mj.Call("slice", mj.Str("c1"), mj.Str("c2")), Body: g.stmts(depth+1, vis)})
 		case 13:
@@ -217,12 +233,21 @@ func (g *c18Gen) stmts(depth int, vis []string) []*mj.Node {
 		case 14:
 			g.nfile++
 			f := &mj.File{Path: fmt.Sprintf("/inc/f%d.jet", g.nfile), Body: g.stmts(depth+1, vis)}
+			if g.n(0, 1, "includeWithoutOpeningDecl") == 0 {
+				// an included template is a scope of its own from its first action on: no opening declaration needed
+				f.Body = f.Body[1:]
+				g.labels["include-body-starts-with-api-call"] = true
+			}
 			g.p.Files = append(g.p.Files, f)
 			n := &mj.Node{K: "include", E: mj.Str(f.Path)}
 			if g.n(0, 1, "ictx") == 0 {
 				n.Ctx = mj.Str(g.id("ictx"))
 			}
 			out = append(out, n)
+			// whatever the included template declared (through syntax or through the API) stays inside it
+			for _, ln := range c07Locals {
+				out = append(out, mj.Text("(after include, isset "+ln+":"), mj.Print(mj.Call("isset", mj.Var(ln))), mj.Text(")"))
+			}
 		default:
 			out = append(out, mj.Text(g.id("t")))
 		}
@@ -242,6 +267,10 @@ func c18Twin(ns []*mj.Node) []*mj.Node {
 	for _, n := range ns {
 		c := *n
 		c.Body, c.Else, c.Content, c.Catch = c18Twin(n.Body), c18Twin(n.Else), c18Twin(n.Content), c18Twin(n.Catch)
+		if n.K == "range" && n.E != nil && n.E.K == "call" && n.E.Name == "apiLetList" {
+			out = append(out, mj.Let(n.E.Args[0].S, n.E.Args[1]))
+			c.E = mj.Call("slice", mj.Str("r1"), mj.Str("r2"))
+		}
 		if n.K == "print" && n.E.K == "call" {
 			a := n.E.Args
 			switch n.E.Name {
